@@ -222,19 +222,24 @@ L.NeuroMLHdf5Loader.load = classmethod(_h5_load)
 def fresh_default_lists():
     """C07 (another property) is about mutable default lists surviving between calls; every case here starts
     from the state of a fresh process"""
-    for fn in (L.read_neuroml2_string, L._read_neuroml2):
+    for fn in (L.read_neuroml2_string, L._read_neuroml2, L.read_neuroml2_file):
         for d in fn.__defaults__ or ():
             if isinstance(d, list):
                 del d[:]
 
 
-def run_once(root, case, cwd, opt, guard_s):
-    fresh_default_lists()
+def run_once(root, case, cwd, opt, guard_s, ei=0):
+    """one call; with case["default_args"] no already_included list is passed and the calls of one (cwd, optimized) group -
+    case["entries"] - follow each other in the state the process is in (only the first starts from a fresh one)"""
+    dflt = bool(case.get("default_args"))
+    if ei == 0 or not dflt:
+        fresh_default_lists()
+    kw = {} if dflt else None
     del LOADS[:]
     os.chdir(os.path.join(root, *cwd))
     al = [os.path.join(root, *p) if p else root for p in case["al"]]
     ent = case["entry"]
-    res = {"outcome": "done", "lists": {}, "extra_lists": [], "incs_left": 0, "detail": "", "cwd": cwd, "opt": bool(opt)}
+    res = {"outcome": "done", "lists": {}, "extra_lists": [], "incs_left": 0, "detail": "", "cwd": cwd, "opt": bool(opt), "ei": ei}
     signal.signal(signal.SIGALRM, _alarm)
     signal.setitimer(signal.ITIMER_REAL, guard_s)
     try:
@@ -242,15 +247,17 @@ def run_once(root, case, cwd, opt, guard_s):
             p = os.path.join(root, *ent["file"])
             if ent.get("style") == "rel":
                 p = os.path.relpath(p, os.getcwd())
-            doc = L.read_neuroml2_file(p, include_includes=True, already_included=al, optimized=bool(opt))
+            doc = (L.read_neuroml2_file(p, include_includes=True, optimized=bool(opt)) if dflt else
+                   L.read_neuroml2_file(p, include_includes=True, already_included=al, optimized=bool(opt)))
         else:
             b = ent.get("base")
             if b is not None:
                 b = os.path.join(root, *b) if b else root
                 if ent.get("base_style") == "rel":
                     b = os.path.relpath(b, os.getcwd())
-            doc = L.read_neuroml2_string(xml_text(root, "entry", ent["string"]["comps"], ent["string"]["incs"]),
-                                         include_includes=True, already_included=al, base_path=b, optimized=bool(opt))
+            text = xml_text(root, "entry", ent["string"]["comps"], ent["string"]["incs"])
+            doc = (L.read_neuroml2_string(text, include_includes=True, base_path=b, optimized=bool(opt)) if dflt else
+                   L.read_neuroml2_string(text, include_includes=True, already_included=al, base_path=b, optimized=bool(opt)))
         signal.setitimer(signal.ITIMER_REAL, 0)
         res["lists"], res["extra_lists"] = lists_of(doc, case["names"])
         res["incs_left"] = len(doc.includes)
@@ -262,8 +269,10 @@ def run_once(root, case, cwd, opt, guard_s):
         res["detail"] = ("%s: %s" % (type(e).__name__, e))[:300]
     finally:
         signal.setitimer(signal.ITIMER_REAL, 0)
-    res["already"] = [rel(root, p) for p in al]
     res["loads"] = [rel(root, p) for p in LOADS]
+    # with default arguments the list cannot be seen; for an empty initial list it is the list of files opened (checked on
+    # every other run)
+    res["already"] = res["loads"] if dflt else [rel(root, p) for p in al]
     return res
 
 
@@ -365,11 +374,13 @@ def main():
             try:
                 materialise(root, case)
                 runs, orcs = [], []
+                entries = case.get("entries") or [case["entry"]]
                 for cwd in [case["cwd"]] + list(case.get("cwds", [])):
-                    o = oracle(root, case, cwd)
                     for opt in case.get("opts", [False]):
-                        runs.append(run_once(root, case, cwd, opt, guard_s))
-                        orcs.append(o)
+                        for ei, ent in enumerate(entries):
+                            vc = dict(case, entry=ent)
+                            runs.append(run_once(root, vc, cwd, opt, guard_s, ei))
+                            orcs.append(oracle(root, vc, cwd))
                 out.append({"runs": runs, "oracles": orcs})
             finally:
                 os.chdir(home)
